@@ -125,7 +125,7 @@ fn block_strategy() -> BoxedStrategy<BlockR> {
     .boxed()
 }
 
-fn block_bytes(b: &BlockR, n: usize, p: &Z) -> Vec<u8> {
+pub fn block_bytes(b: &BlockR, n: usize, p: &Z) -> Vec<u8> {
     let m = Z::from(1u32) << (8 * n);
     let v: Z = match b {
         BlockR::Zero => Z::from(0u32),
@@ -162,7 +162,7 @@ fn okm_strategy() -> BoxedStrategy<OkmCase> {
     (block_strategy(), block_strategy()).prop_map(|(a, b)| OkmCase { a, b }).boxed()
 }
 
-fn check_okm(c: &OkmCase, info: &mut Info) -> Result<(), String> {
+pub fn check_okm(c: &OkmCase, info: &mut Info) -> Result<(), String> {
     info.nt_if(!matches!(c.a, BlockR::Zero));
     info.class(match c.a {
         BlockR::Zero => "zero",
@@ -277,6 +277,7 @@ pub fn def() -> PropDef {
             Box::new(Sub { name: "expand-message", rule: "bytes equal the RFC; requests beyond 255 blocks abort", quick: 6000, thorough: 250_000, strategy: || boxed(expand_case_strategy()), check: check_expand }),
             Box::new(Sub { name: "block-reduction", rule: "from_okm / from_ro == OS2IP(block) mod p for Fq (64), Fr (48), Fq2 (2 x 64, real first)", quick: 20_000, thorough: 1_000_000, strategy: || boxed(okm_strategy()), check: check_okm }),
             Box::new(Sub { name: "hash-to-field", rule: "hash_to_field::<Fq|Fr|Fq2, expander>(msg, dst, count) == consecutive reduced blocks of the model expansion", quick: 4000, thorough: 150_000, strategy: || boxed(h2f_strategy()), check: check_h2f }),
+            super::corpus_sub_expand(),
         ],
         assumptions: {
             let mut v = COMMON_ASSUMPTIONS.to_vec();
